@@ -369,6 +369,11 @@ class Executor:
                 continue
             t = truth(c, s)
             if self.pure_depth:
+                ts = z3.simplify(t)
+                if z3.is_true(ts) or z3.is_false(ts):
+                    # a test decided by the value's shape (e.g. `x is not None` for the literal None): only that arm exists
+                    yield s, self.ev1(e.body if z3.is_true(ts) else e.orelse, s)
+                    continue
                 a = self.ev1(e.body, s)
                 b = self.ev1(e.orelse, s)
                 yield s, self.merge(t, a, b, s)
